@@ -85,8 +85,8 @@ m = {
    "add_only": True
  },
  "engines": [
-   {"name": "libfuzzer", "path": "fuzz", "serves_properties": ["C16"],
-    "kind_free_text": "cargo-fuzz 0.13 crate with two libFuzzer targets (fz_components, fz_factors), seed corpus under corpus/, dictionary fuzz/cteepbd.dict; run by the thorough tier of C16 only; crashes are re-confirmed through vcheck's plain check"},
+   {"name": "libfuzzer", "path": "fuzz", "serves_properties": sorted(k for k in CHECKS.keys() if k != "C19"),
+    "kind_free_text": "cargo-fuzz 0.13 crate, thorough tier only. (a) C16: two byte-level libFuzzer targets (fz_components, fz_factors; seed corpus under corpus/, dictionary fuzz/cteepbd.dict) whose oracle is 'no panic'; (b) every other in-process property: target fz_prop feeds the fuzzer's bytes to that property's own proptest strategy as its random stream (vendor/proptest: PassThrough RNG that never runs dry) and puts the decoded case through the property's plain check, so coverage guidance works on structured, sound cases and the full semantic oracle; a failing case is written as a JSON replay document by the target and re-confirmed by vcheck's plain check before it is reported"},
    {"name": "vcheck", "path": "harness", "serves_properties": sorted(CHECKS.keys()),
     "kind_free_text": "Rust binary using proptest 1.11 as a library (TestRunner, ChaCha seeded from VERIF_SEED, 16 workers), explicit oracles per property, shrinking to a JSON replay file; also drives /repo's cteepbd binary out of process for the CLI properties"},
  ],
